@@ -1016,6 +1016,9 @@ _BEH_RNG = np.random.RandomState(1414)
 _BEH_U = _BEH_RNG.rand(6, 5)          # fixed pseudo-random unit-cube coordinates (up to 6 rows, 5 points)
 
 
+_BEH_CALLS = [0]
+
+
 def behaviour_diff(m, f):
     """first public geometric / covariance behaviour on which the live model `m` differs from the freshly constructed `f`
     (both have equal observable state at this point), else None.  This is what 'the model equals one constructed directly'
@@ -1048,7 +1051,11 @@ def behaviour_diff(m, f):
     r = np.array([0.0, 0.3, 1.0, 4.0]) * ls
     tests = [("isometrize", lambda o: o.isometrize(X)), ("anisometrize", lambda o: o.anisometrize(o.isometrize(X))),
              ("variogram", lambda o: o.variogram(r)), ("cov_nugget", lambda o: o.cov_nugget(r)),
-             ("len_scale_vec", lambda o: o.len_scale_vec), ("sill", lambda o: o.sill)]
+             ("len_scale_vec", lambda o: o.len_scale_vec), ("sill", lambda o: o.sill),
+             ("var", lambda o: o.var), ("var_raw", lambda o: o.var_raw)]
+    _BEH_CALLS[0] += 1
+    if _BEH_CALLS[0] % 6 == 0:       # numerical integrations: on every sixth comparison (a stale derived value survives until it is read)
+        tests += [("integral_scale", lambda o: o.integral_scale), ("integral_scale_vec", lambda o: o.integral_scale_vec)]
     if m.latlon:
         tests.append(("vario_yadrenko", lambda o: o.vario_yadrenko(np.array([0.0, 0.2, 1.0, 3.0]))))
     else:
@@ -1507,6 +1514,67 @@ def alias_search(ctx):
     return ev, viol
 
 
+def tpl_var_search(ctx):
+    """variance / intensity coupling of the truncated power law models against the documented closed form
+    var = var_raw * ((len_up/rescale)^(2H) - (len_low/rescale)^(2H)) / (2H), len_up = len_low + len_scale, over Hurst coefficients (inside the default bounds (0.1, 1)),
+    lower cut-offs from 0 through tiny positive values (1e-12 ... 1e-6: inside any absolute `isclose` band) to ordinary ones, rescale
+    factors and length scales — after construction and after every assignment of a history (var, var_raw, len_low, hurst, len_scale,
+    rescale), where `var_raw` must stay what was last fixed and `var` must follow."""
+    import gstools as gs
+    rng = np.random.RandomState(ctx.seed + 1461)
+    viol, ev = [], 0
+
+    def factor(H, ll, ls, rs):
+        return (math.pow((ll + ls) / rs, 2 * H) - math.pow(ll / rs, 2 * H)) / (2 * H)
+
+    hs = [0.11, 0.15, 0.25, 0.5, 0.75, 0.95]
+    lows = [0.0, 1e-12, 1e-10, 1e-9, 5e-9, 1e-8, 2e-8, 1e-6, 1e-3, 0.5, 3.0]
+    with warnings.catch_warnings():
+        warnings.simplefilter("ignore")
+        for trial in range(ctx.scale(120, 1200)):
+            cname = ["TPLGaussian", "TPLExponential", "TPLStable"][trial % 3]
+            H, ll = float(rng.choice(hs)), float(rng.choice(lows))
+            ls, rs = float(rng.choice([0.5, 1.0, 4.0, 17.0])), float(rng.choice([1.0, 0.5, 4.0]))
+            raw = float(rng.choice([1.0, 2.5, 0.3]))
+            kw = dict(dim=int(rng.randint(1, 4)), hurst=H, len_low=ll, len_scale=ls, rescale=rs)
+            case = dict(cls=cname, **kw)
+            try:
+                m = getattr(gs, cname)(var_raw=raw, **kw)
+                ev += 1
+                want = raw * factor(H, ll, ls, rs)
+                if not (abs(float(m.var) - want) <= 1e-11 * abs(want) and abs(float(m.var_raw) - raw) <= 1e-13 * raw):
+                    viol.append({"key": f"tpl-variance:construct:{cname}", "case": dict(case, var_raw=raw),
+                                 "what": f"{cname}(var_raw={raw}, hurst={H}, len_low={ll}, len_scale={ls}, rescale={rs}): var = {float(m.var)!r}, "
+                                         f"the documented closed form gives {want!r}"})
+                    continue
+                steps = []
+                for _ in range(int(rng.randint(1, 5))):
+                    k = ["var", "len_low", "hurst", "len_scale", "var_raw", "rescale"][int(rng.randint(6))]
+                    if k == "var":
+                        v = float(rng.choice([1.0, 3.0, 0.2])); m.var = v; raw = v / factor(H, ll, ls, rs)
+                    elif k == "var_raw":
+                        raw = float(rng.choice([1.0, 2.5, 0.3])); m.var_raw = raw
+                    elif k == "len_low":
+                        ll = float(rng.choice(lows)); m.len_low = ll
+                    elif k == "hurst":
+                        H = float(rng.choice(hs)); m.hurst = H
+                    elif k == "len_scale":
+                        ls = float(rng.choice([0.5, 1.0, 4.0, 17.0])); m.len_scale = ls
+                    else:
+                        rs = float(rng.choice([1.0, 0.5, 4.0])); m.rescale = rs
+                    steps.append((k, dict(hurst=H, len_low=ll, len_scale=ls, rescale=rs)))
+                    ev += 1
+                    want = raw * factor(H, ll, ls, rs)
+                    if not (abs(float(m.var) - want) <= 1e-10 * abs(want) and abs(float(m.var_raw) - raw) <= 1e-10 * abs(raw)):
+                        viol.append({"key": f"tpl-variance:history:{cname}", "case": dict(case, steps=steps),
+                                     "what": f"after {[s[0] for s in steps]} the model reports var = {float(m.var)!r}, var_raw = {float(m.var_raw)!r}; "
+                                             f"the assignments and the closed form give var = {want!r}, var_raw = {raw!r}"})
+                        break
+            except Exception as ex:
+                viol.append({"key": "tpl-variance:exception", "case": case, "what": f"{type(ex).__name__}: {ex}"})
+    return ev, viol
+
+
 def search(ctx, deep=False):
     f = 3 if deep else 1
     ev0, v0 = directed_search()
@@ -1514,8 +1582,9 @@ def search(ctx, deep=False):
     ev2, v2 = history_search(ctx, ctx.scale(500, 8000) * f, 10 if ctx.quick else 16)
     ev3, v3 = constructor_search(ctx)
     ev4, v4 = alias_search(ctx)
-    ev2 += ev3 + ev4
-    viol = v0 + v1 + v3 + v4 + v2
+    ev5, v5 = tpl_var_search(ctx)
+    ev2 += ev3 + ev4 + ev5
+    viol = v0 + v1 + v3 + v4 + v5 + v2
     # one violation per key is enough for the verdict; keep it small and stable
     out, seen = [], set()
     for v in viol:
@@ -1530,6 +1599,7 @@ def search(ctx, deep=False):
                        f"{ev3} constructor calls combining var / var_raw with integral_scale, optional arguments and rescale against the setter route; "
                        f"{ev4} transfers of getter arrays (anis, angles, len_scale_vec) between models / save-and-restore on one model: array == list of the "
                        "same numbers, donor and receiver independent afterwards; "
+                       f"{ev5} truncated-power-law states (Hurst 0.11-0.95, lower cut-off 0 / 1e-12 ... 1e-6 / ordinary, rescale, histories) against the closed form of var / var_raw; "
                        f"violation keys: {sorted(seen)}"}
 
 
